@@ -294,6 +294,13 @@ impl Cut {
         }
     }
 
+    pub fn sketch_table_len(&self) -> usize {
+        match &self.inner {
+            Inner::U(c) => c.verif_sketch_table_len(),
+            Inner::S(c) => c.verif_sketch_table_len(),
+        }
+    }
+
     pub fn sketch(&self) -> VerifSketch {
         match &self.inner {
             Inner::U(c) => c.verif_sketch(),
